@@ -2513,7 +2513,8 @@ template< size_t L> inline
    if (pos1 >= mLength)
       return (len2 == 0) ? 0 : 1;
 
-   const size_t  use_len = (pos1 + count1 > mLength) ? (mLength - pos1) : count1;
+   // count1 can be max(64bit), so we cannot calc pos1 + count1
+   const size_t  use_len = (count1 > mLength - pos1) ? (mLength - pos1) : count1;
    const size_t  max_cmp_len = std::min( use_len, len2);
    const int     cmp_result = std::memcmp( &mString[ pos1], str, max_cmp_len);
 
@@ -2918,7 +2919,8 @@ template< size_t L>
 {
    if ((pos >= mLength) || (count == 0))
       return std::string();
-   if ((count == std::string::npos) || (pos + count >= mLength))
+   // count can be max(64bit), so we cannot calc pos + count
+   if (count > mLength - pos)
       count = mLength - pos;
    return std::string( &mString[ pos], count);
 } // FixedString< L>::substr
@@ -2929,7 +2931,8 @@ template< size_t L>
 {
    if ((pos >= mLength) || (dest == nullptr))
       return 0;
-   if (pos + count >= mLength)
+   // count can be max(64bit), so we cannot calc pos + count
+   if (count > mLength - pos)
       count = mLength - pos;
    std::memcpy( dest, &mString[ pos], count);
    return count;
@@ -2973,7 +2976,9 @@ template< size_t L>
    size_t FixedString< L>::find( const FixedString& str, size_t pos) const
       noexcept
 {
-   if ((pos + str.mLength > mLength) || (mLength == 0) || (str.mLength == 0))
+   // pos can be max(64bit), so we cannot calc pos + str.mLength
+   if ((str.mLength > mLength) || (pos > mLength - str.length())
+       || (mLength == 0) || (str.mLength == 0))
       return std::string::npos;
    for (size_t idx = pos; idx <= (mLength - str.length()); ++idx)
    {
@@ -2988,7 +2993,9 @@ template< size_t L>
    size_t FixedString< L>::find( const std::string& str, size_t pos) const
       noexcept
 {
-   if ((pos + str.length() > mLength) || (mLength == 0) || str.empty())
+   // pos can be max(64bit), so we cannot calc pos + str.length()
+   if ((str.length() > mLength) || (pos > mLength - str.length())
+       || (mLength == 0) || str.empty())
       return std::string::npos;
    for (size_t idx = pos; idx <= (mLength - str.length()); ++idx)
    {
@@ -3003,8 +3010,9 @@ template< size_t L>
    size_t FixedString< L>::find( const char* str, size_t pos, size_t count)
       const noexcept
 {
-   if ((pos + count > mLength) || (mLength == 0) || (count == 0)
-       || (str == nullptr))
+   // pos and count can be max(64bit), so we cannot calc pos + count
+   if ((count > mLength) || (pos > mLength - count) || (mLength == 0)
+       || (count == 0) || (str == nullptr))
       return std::string::npos;
    for (size_t idx = pos; idx <= (mLength - count); ++idx)
    {
@@ -3042,7 +3050,8 @@ template< size_t L>
 {
    if ((mLength == 0) || (str.mLength == 0) || (str.mLength > mLength))
       return std::string::npos;
-   if ((pos == std::string::npos) || (pos + str.mLength > mLength))
+   // pos can be max(64bit), so we cannot calc pos + str.mLength
+   if (pos > mLength - str.length())
       pos = mLength - str.mLength;
    // have to add 1 in the assignment because of the decrement in the condition
    for (size_t idx = pos + 1; idx-- > 0; )
@@ -3060,7 +3069,8 @@ template< size_t L>
 {
    if ((mLength == 0) || str.empty() || (str.length() > mLength))
       return std::string::npos;
-   if ((pos == std::string::npos) || (pos + str.length() > mLength))
+   // pos can be max(64bit), so we cannot calc pos + str.length()
+   if (pos > mLength - str.length())
       pos = mLength - str.length();
    // have to add 1 in the assignment because of the decrement in the condition
    for (size_t idx = pos + 1; idx-- > 0; )
@@ -3085,7 +3095,8 @@ template< size_t L>
       count = str_len;
    if (count > mLength)
       return std::string::npos;
-   if ((pos == std::string::npos) || (pos + count > mLength))
+   // pos can be max(64bit), so we cannot calc pos + count
+   if (pos > mLength - count)
       pos = mLength - count;
    // have to add 1 in the assignment because of the decrement in the condition
    for (size_t idx = pos + 1; idx-- > 0; )
